@@ -45,6 +45,20 @@ def _vals(rng, tier):
         vs.add(10 ** 8 * (1 + g % 97) + g)        # low group through Utoa_8
         vs.add(g * 10 ** 8 + (g * 7919) % 10 ** 8)  # high group through Utoa_1_8, low through Utoa_8
         vs.add(10 ** 16 * (1 + g % 1844) + g * 10 ** 8 + (g * 31337) % 10 ** 8)  # Utoa_16 both halves
+    # digit groups at their extremes TOGETHER: every high part with a low 8-digit group of all nines / all zeros / one off (a reciprocal
+    # multiplication that is one bit short fails only for a large quotient combined with the largest remainders), for the 9-10, 11-16
+    # and 17-20 digit ranges and around 2^32
+    lows = [0, 1, 2, 49999999, 50000000, 99999990, 99999996, 99999997, 99999998, 99999999]
+    for hi in list(range(1, 100)) + [rng.randrange(100, 10 ** 8) for _ in range(60 if tier == "quick" else 5000)] + [10 ** 8 - 1, 42949672, 42949673]:
+        for lo in lows:
+            vs.add(hi * 10 ** 8 + lo)
+    for hi in list(range(1, 1845)) if tier != "quick" else (list(range(1, 20)) + rng.sample(range(20, 1845), 40) + [1844]):
+        for mid in (0, 99999999, rng.randrange(10 ** 8)):
+            for lo in (0, 99999999, 99999998, rng.randrange(10 ** 8)):
+                vs.add(hi * 10 ** 16 + mid * 10 ** 8 + lo)
+    for d in range(-40, 41):
+        vs.add(2 ** 32 + d)
+        vs.add(2 ** 31 + d)
     return sorted(v for v in vs if 0 <= v < 2 ** 64)
 
 
